@@ -35,7 +35,10 @@ RULE = ("nesting shapes = all compositions up to depth D of the frame kinds K (3
         "own entry points called from C as backend/comm/call_out do -- safe_apply, apply, safe_call_function_pointer, call_function_pointer, "
         "apply_master_ob, safe_apply_master_ob x target {live, destructed just before / funptr whose owner is destructed} x {function "
         "exists, missing, functional funptr} x fault at EVERY dispatch k of the called function (20 scenarios, 231 elements), each followed "
-        "by the snapshot comparison (incl. depth of the error-context chain) and the probe; one process per element")
+        "by the snapshot comparison (incl. depth of the error-context chain, also at the point where the API returns) and the probe; part "
+        "'vital': destruct(master()) / destruct(simul_efun) while the reload fails by {syntax error in the file, error in create() of the new "
+        "copy, valid_object() refuses, loader without euid} x {caught, uncaught} in a private copy of the mudlib, then the file is repaired and "
+        "names, find_object(), a successful destruct(master())+reload and the probe are checked (16 elements); one process per element")
 
 ASSUME = ["driver-style entry = save_context/setjmp/restore_context/pop_context around apply(), as backend() and call_out() do",
           "num_objects_this_thread is not compared for the 32 shapes whose fault-free run already changes it (clone_object() inside a "
@@ -54,6 +57,9 @@ def fix_replays(ck):
         keep = [x for x in info["args"] if x.startswith("--master=")]
         if first.startswith("elem="):
             info["args"] = ["--" + first] + keep
+            info["fail"]["index"] = 0
+        elif first.startswith("vital="):
+            info["args"] = ["--part=vital", "--" + first] + keep
             info["fail"]["index"] = 0
         elif first.startswith("api="):
             info["args"] = ["--part=api", "--" + first] + keep
@@ -86,7 +92,10 @@ def run(ck):
         ck.enum(p, ["--depth=1", "--kinds=all", "--mode=error", "--master=catch"], "d1-all-error-master-uses-catch", batch=64, deadline_s=40, jobs=J, timeout_ms=400000)
         ck.enum(p, ["--part=api"], "api", batch=16, deadline_s=30, jobs=J, timeout_ms=400000)
         ck.enum(a, ["--part=api", "--master=catch"], "asan-api-master-uses-catch", batch=16, deadline_s=30, jobs=J, timeout_ms=400000)
+        ck.enum(a, ["--part=vital"], "asan-vital-object-reload-fails", batch=2, deadline_s=30, jobs=J, timeout_ms=400000)
     else:
+        ck.enum(p, ["--part=vital"], "vital-object-reload-fails", batch=2, deadline_s=30, jobs=J, timeout_ms=400000)
+        ck.enum(a, ["--part=vital"], "asan-vital-object-reload-fails", batch=2, deadline_s=30, jobs=J, timeout_ms=400000)
         ck.enum(p, ["--depth=2", "--kinds=core", "--mode=error", "--master=catch"], "d2-core-error-master-uses-catch", batch=64, deadline_s=200, jobs=J, timeout_ms=400000)
         ck.enum(p, ["--depth=1", "--kinds=all", "--part=sites", "--master=catch"], "d1-sites-master-uses-catch", batch=64, deadline_s=60, jobs=J, timeout_ms=400000)
         ck.enum(p, ["--part=api"], "api", batch=16, deadline_s=30, jobs=J, timeout_ms=400000)
@@ -115,11 +124,11 @@ def selftest(ck):
     """break the observation (not the repo): each oracle must fire with its own key"""
     ex = build(ck)
     want = {1: "C05:sp-not-restored:driver-entry:fault-uncaught", 2: "C05:command_giver-not-restored:catch-point", 3: "C05:probe:",
-            4: "C05:error_context_chain-not-restored:api:"}
+            4: "C05:error_context_chain-not-restored:api:", 5: "C05:sp-not-restored:vital-reload:", 6: "C05:vital-object-not-as-before:"}
     bad = 0
     for st, sub in want.items():
         ck2 = vlib.Check("C05", "quick", 0, LEVEL)
-        a2 = ["--part=api"] if st == 4 else ["--depth=1", "--kinds=call,catch,call_other", "--mode=error"]
+        a2 = ["--part=api"] if st == 4 else ["--part=vital"] if st >= 5 else ["--depth=1", "--kinds=call,catch,call_other", "--mode=error"]
         ck2.enum(ex["h_c05p"], a2 + ["--selftest=%d" % st], "selftest%d" % st, batch=64, jobs=JOBS)
         hit = [k for k in ck2.fails if sub in k]
         if ck2.broken or not hit:
